@@ -1476,6 +1476,7 @@ func c13Pair(r *Run, pkg *packages.Package, u funcUnit, begins map[types.Object]
 func c13MiddlewareOrder(r *Run, pkg *packages.Package) {
 	r.curRule = "C13-MWORDER"
 	info := pkg.TypesInfo
+	c13SortedInsert(r, pkg)
 	fd := findFunc(pkg, "", "applyMiddlewares")
 	if fd == nil {
 		r.info("applyMiddlewares", 0, "function not found: middleware ordering not judged")
@@ -1840,5 +1841,75 @@ func c13ScriptWrites(r *Run, pkg *packages.Package) {
 		} else {
 			r.ok(key, fd.Pos(), "every successful path hands the bytes to the response writer")
 		}
+	}
+}
+
+
+// c13SortedInsert: a list kept sorted at registration — pos := sort.Search(len(l), func(i) bool { return
+// l[i].priority OP e.priority }) followed by an insertion at pos — keeps "ascending priority, ties in
+// registration order" exactly when the search looks for the first entry with a *greater* priority (OP is >):
+// the new entry then goes behind every entry of the same priority. With >= it goes in front of them and
+// equal priorities run in reverse registration order; < / <= sort descending.
+func c13SortedInsert(r *Run, pkg *packages.Package) {
+	info := pkg.TypesInfo
+	for _, fd := range funcDecls(pkg) {
+		if fd.Body == nil {
+			continue
+		}
+		ast.Inspect(fd.Body, func(n ast.Node) bool {
+			c, ok := n.(*ast.CallExpr)
+			if !ok || len(c.Args) != 2 {
+				return true
+			}
+			cal := calleeFunc(info, c)
+			if cal == nil || cal.Pkg() == nil || cal.Pkg().Path() != "sort" || cal.Name() != "Search" {
+				return true
+			}
+			lit, ok := ast.Unparen(c.Args[1]).(*ast.FuncLit)
+			if !ok || len(lit.Body.List) != 1 {
+				return true
+			}
+			rs, ok := lit.Body.List[0].(*ast.ReturnStmt)
+			if !ok || len(rs.Results) != 1 {
+				return true
+			}
+			be, ok := ast.Unparen(rs.Results[0]).(*ast.BinaryExpr)
+			if !ok {
+				return true
+			}
+			isPrio := func(e ast.Expr) (indexed bool, ok bool) {
+				se, isSel := ast.Unparen(e).(*ast.SelectorExpr)
+				if !isSel || se.Sel.Name != "priority" {
+					return false, false
+				}
+				_, idx := ast.Unparen(se.X).(*ast.IndexExpr)
+				return idx, true
+			}
+			lx, lok := isPrio(be.X)
+			ry, rok := isPrio(be.Y)
+			if !lok || !rok || lx == ry {
+				return true
+			}
+			op := be.Op
+			if !lx { // new.priority OP list[i].priority: mirror
+				switch op {
+				case token.LSS:
+					op = token.GTR
+				case token.LEQ:
+					op = token.GEQ
+				case token.GTR:
+					op = token.LSS
+				case token.GEQ:
+					op = token.LEQ
+				}
+			}
+			key := funcKey(pkg, fd) + "#sorted-insert"
+			if op == token.GTR {
+				r.ok(key, c.Pos(), "the insertion point is the first entry with a greater priority: ascending order, a new entry goes behind the entries of its own priority")
+			} else {
+				r.bad(key, c.Pos(), fmt.Sprintf("the insertion point is searched with list[i].priority %s new.priority: the middleware list is not kept in ascending priority with ties in registration order (>= puts a new entry in front of the entries of its own priority, so equal priorities run in reverse registration order)", op))
+			}
+			return true
+		})
 	}
 }
